@@ -68,7 +68,7 @@ def install(m):
     def vlog(m, alt, fr, ins, args, work):
         tag = args[0]
         rest = ()
-        if len(args) > 1 and type(args[1]) is Slice:
+        if len(args) > 1 and type(args[1]) is Slice and type(args[1].len) is int:
             rest = I.slice_elems(m, alt, args[1])
         m.log.append((m.step, len(m.log), alt.guard, alt.thread.tid, tag, rest))
         return None
@@ -776,7 +776,7 @@ def install(m):
 
     def sprintf_model(m, alt, fr, ins, args, work):
         fmt_ = args[0]
-        if type(fmt_) is str and fmt_ in ("%v", "%f", "%d", "%s") and type(args[1]) is Slice and args[1].len == 1:
+        if type(fmt_) is str and fmt_ in ("%v", "%f", "%d", "%s") and type(args[1]) is Slice and type(args[1].len) is int and args[1].len == 1:
             a = I.slice_elems(m, alt, args[1])[0]
             verb = "%v" if fmt_ in ("%d", "%s") else fmt_
             if type(a) is Union:
